@@ -310,6 +310,9 @@ func (s *indexKVStore) getSnapshot() version.Snapshot {
 func (s *indexKVStore) getOrCreateValue(bucketID uint32, key []byte,
 	createFn func() (uint32, error),
 ) (id uint32, ok, isNew bool, err error) {
+	// snapshot must be taken before looking up memory store,
+	// createValue uses it to detect a flush which completes during lookup.
+	snapshot := s.getSnapshot()
 	// get from memory store
 	id, ok = s.GetValueFromMem(bucketID, key)
 	if ok {
@@ -319,7 +322,6 @@ func (s *indexKVStore) getOrCreateValue(bucketID uint32, key []byte,
 	bucket, ok := s.bucketCache.Get(bucketID)
 	if !ok {
 		// get from kv store(persist)
-		snapshot := s.getSnapshot()
 		reader := v1.NewIndexKVReader(snapshot)
 		bucket, err = reader.GetBucket(bucketID)
 		if err != nil {
@@ -341,17 +343,41 @@ func (s *indexKVStore) getOrCreateValue(bucketID uint32, key []byte,
 	if createFn == nil {
 		return 0, false, false, nil
 	}
-	id, err = s.createValue(bucketID, key, createFn)
+	id, isNew, err = s.createValue(bucketID, key, snapshot, createFn)
 	if err != nil {
 		return 0, false, false, err
 	}
-	return id, true, true, nil
+	return id, true, isNew, nil
 }
 
-// createValue creates new value.
-func (s *indexKVStore) createValue(bucketID uint32, key []byte, createFn func() (uint32, error)) (uint32, error) {
+// createValue creates new value if the key still not exist(double check under write lock).
+func (s *indexKVStore) createValue(bucketID uint32, key []byte,
+	lookupSnapshot version.Snapshot, createFn func() (uint32, error),
+) (id uint32, isNew bool, err error) {
 	s.lock.Lock()
 	defer s.lock.Unlock()
+
+	// double check, other goroutine maybe created it between lookup and lock
+	if id, ok := s.getValueFromMem(s.mutable, bucketID, key); ok {
+		return id, false, nil
+	}
+	if id, ok := s.getValueFromMem(s.immutable, bucketID, key); ok {
+		return id, false, nil
+	}
+	if s.snapshot != lookupSnapshot {
+		// flush completed after lookup, key maybe moved from memory to kv store
+		bucket, err := v1.NewIndexKVReader(s.snapshot).GetBucket(bucketID)
+		if err != nil {
+			return 0, false, err
+		}
+		if bucket != nil {
+			id, ok := bucket.GetValue(key)
+			bucket.Release()
+			if ok {
+				return id, false, nil
+			}
+		}
+	}
 
 	kvs, ok := s.mutable.Get(bucketID)
 	if !ok {
@@ -359,12 +385,12 @@ func (s *indexKVStore) createValue(bucketID uint32, key []byte, createFn func() 
 		s.mutable.Put(bucketID, kvs)
 	}
 	// generate and store value
-	id, err := createFn()
+	id, err = createFn()
 	if err != nil {
-		return 0, err
+		return 0, false, err
 	}
 	kvs[string(key)] = id
-	return id, nil
+	return id, true, nil
 }
 
 // GetValueFromMem returns value from mem store.
